@@ -956,6 +956,14 @@ def rule_r10(repo, run):
     run.rules[R]["obligations"] += n2
     run.rules[R]["discharged"] += n2 - len(found)
     run.floor(R, "truthiness tests of optional fields", n2, 2)
+    found, n3, lists = lints.dead_none_tests(repo, mods)
+    for mn, q, node, msg in found:
+        run.fail(R, "%s.%s:dead-test@%s" % (mn, q, re.sub(r"\s+", " ", ast.unparse(node))[:40]),
+                 msg + ": the invalid input is not diagnosed and fails later with an internal error", repo.module(mn).loc(node))
+    run.rules[R]["obligations"] += n3
+    run.rules[R]["discharged"] += n3 - len(found)
+    if len(lists) < 3:
+        raise AnalysisError("C17.R10: list-valued fields of Declaration not recognised (%s)" % sorted(lists))
 
 
 def run(repo, run, tier):
